@@ -84,8 +84,8 @@ EXTRA = {
     ("logqlengine/sampler.go", 65): EQ + ": the range aggregation applies the same grouping again",
     ("logqlengine/sampler.go", 33): EQ + ": error path of a constructor that does not fail for built queries",
     ("logqlengine/template.go", 86): "not modelled: toDateInZone",
-    ("logqlengine/template.go", 99): "now modelled (all unixToTime digit lengths) - to be re-run", ("logqlengine/template.go", 100): "now modelled - to be re-run",
-    ("logqlengine/template.go", 103): "now modelled - to be re-run", ("logqlengine/template.go", 105): "now modelled - to be re-run", ("logqlengine/template.go", 107): "now modelled - to be re-run",
+    ("logqlengine/template.go", 99): "caught since C07 models every unixToTime digit length (5, 10, 13, 16, 19)", ("logqlengine/template.go", 100): "caught since C07 models every unixToTime digit length",
+    ("logqlengine/template.go", 103): "caught since C07 models every unixToTime digit length", ("logqlengine/template.go", 105): "caught since C07 models every unixToTime digit length", ("logqlengine/template.go", 107): "caught since C07 models every unixToTime digit length",
     ("logql/metric_expr.go", 15): EQ + ": marker method", ("logql/pipeline.go", 10): EQ + ": marker method", ("logql/pipeline.go", 90): EQ + ": marker method",
     ("logql/op.go", 34): EQ, ("logql/op.go", 59): EQ + ": ^ stays the tightest level",
     ("logql/parser.go", 127): EQ + ": strconv treats an unknown bit size as 64",
